@@ -38,6 +38,15 @@ CHECKS = {
         "note": "Trusted: TLC; the abstraction of byte code to index-addressed instructions in the harness; the two guarded hooks.",
         "technique": "TLA+ transcription model-checked exhaustively (small scope) + artefact validation of real optimizer in/out pairs + twin runs",
     },
+    "C09": {
+        "text": ("TengoSem carries a ghost set of snapshots of every container that became immutable from storage no mutable value shares; TLC "
+                 "checks the invariant ImmStable (contents never change) in every state of every program. The immut family (every origin of "
+                 "immutability x derivation sequences <= 3 x a write through a derived value) is evaluated by TLC and run on the real VM; all "
+                 "final globals must be among the outcomes the model allows."),
+        "design_ref": "DESIGN.md 8/C09",
+        "note": "Trusted: TLC; TengoValues' storage model (windows into shared stores). Builtin-module tables are not modelled.",
+        "technique": "TLA+ reference semantics with a ghost immutability invariant checked by TLC + program family replayed on the real VM",
+    },
     "C10": {
         "text": ("Laws.tla holds the equality/ordering/truthiness/copy/conversion tables over abstract descriptors (type pair x relation); TLC "
                  "checks the property's laws on them for every descriptor and emits them. The real runtime is evaluated on a concrete universe "
